@@ -183,11 +183,14 @@ var keyTemplates = []string{
 	"..", "../victimb", "../victimb/vdir", "../..", ".", "d/..", "x/..", "d/../..", "../victimb/planted.txt", "../../planted-top.txt", "../atk2/planted.txt",
 	"own.txt", "d/own2.txt", "d//own2.txt", "/own.txt", "d/./own2.txt", "d/own2.txt/", "new/obj.bin", "//etc/vconf-k4.conf", "..\\victimb\\vsecret-k1.txt",
 	"%252e%252e/victimb/vsecret-k1.txt", "..%00/victimb/vsecret-k1.txt", "../atk/own.txt", "../atk/../victimb/vsecret-k1.txt",
+	"victimb/vsecret-k1.txt", "atk2/vnear-k3.txt", "etc/vconf-k4.conf", "buckets/victimb/vsecret-k1.txt", "atk/own.txt",
+	"%252e%252e/%252e%252e/planted-2x.txt", "%252e%252e%252f%252e%252e%252fetc%252fvconf-k4.conf", "%252e%252e/victimb/vdir/planted-2x.txt",
 }
 
 var uploadIDTemplates = []string{
 	"../../victimb", "../../victimb/vdir", "../../victimb/.uploads/vup", "../../../etc", "../../../topics/victim", "../../atk2", "..", ".", "", "aup", "aup/..", "aup/../../../victimb",
 	"../d", "../../atk/d", "aup/0001.part", "/etc", "../../..", "%2e%2e/%2e%2e/victimb", "..%2f..%2fvictimb", "nosuch", "../.uploads/aup", "../../victimb/", "aup/",
+	"%252e%252e/%252e%252e/victimb/vdir", "%252e%252e%252f%252e%252e%252fvictimb%252fvdir", "%252e%252e/%252e%252e/%252e%252e", "%252e%252e", "aup%252f%252e%252e",
 }
 
 var copySourceTemplates = []string{
@@ -195,6 +198,8 @@ var copySourceTemplates = []string{
 	"/./../etc/vconf-k4.conf", "/atk2/../../etc/vconf-k4.conf", "/atk/.uploads/aup/0001.part", "/victimb/.uploads/vup/0001.part", "/atk/d/../.uploads/aup/0001.part",
 	"/atk/own.txt", "/atk/d/own2.txt", "/victimb/vsecret-k1.txt", "victimb/vdir/../vsecret-k1.txt", "/atk2/vnear-k3.txt", "/victimb/../atk2/vnear-k3.txt", "/atk/../victimb/vsecret-k1.txt",
 	"%2Fatk%2F..%2F..%2Fetc%2Fvconf-k4.conf", "/atk/%2e%2e/%2e%2e/etc/vconf-k4.conf", "/buckets/victimb/vsecret-k1.txt", "/..", "/", "atk", "/atk/nosuch",
+	"/etc/vconf-k4.conf", "/topics/victim/vtopic-k5", "/vtop-k6.txt", "vtop-k6.txt",
+	"/atk/%252e%252e/%252e%252e/etc/vconf-k4.conf", "/atk/%252e%252e%252f%252e%252e%252fvtop-k6.txt", "/victimb/%252euploads/vup/0001.part", "/atk/%252euploads/aup/0001.part",
 }
 
 var batchKeyTemplates = []string{
@@ -475,30 +480,54 @@ func hasDotSegment(s string) bool {
 	return false
 }
 
+// decodings: the string as the gateway holds it, and decoded once more, because
+// CopyObject's destination key, the upload id and the copy source are formatted
+// into filer URLs without escaping and the filer decodes the URL again.
+func decodings(s string) []string {
+	out := []string{s}
+	if d, err := url.PathUnescape(s); err == nil && d != s {
+		out = append(out, d)
+	}
+	return out
+}
+
 // copySourceResolved mirrors how the header is read: query-unescaped once,
-// leading slash dropped, first segment = bucket.
-func copySourceResolved(src string) (bucket, resolved string) {
+// leading slash dropped, first segment = bucket; one (bucket, resolved path)
+// per decoding.
+func copySourceResolved(src string) (buckets, resolved []string) {
 	d, err := url.QueryUnescape(src)
 	if err != nil {
 		d = src
 	}
-	d = strings.TrimPrefix(d, "/")
-	parts := strings.SplitN(d, "/", 2)
-	bucket = parts[0]
-	obj := ""
-	if len(parts) == 2 {
-		obj = parts[1]
+	for _, v := range decodings(d) {
+		v = strings.TrimPrefix(v, "/")
+		parts := strings.SplitN(v, "/", 2)
+		obj := ""
+		if len(parts) == 2 {
+			obj = parts[1]
+		}
+		buckets = append(buckets, parts[0])
+		resolved = append(resolved, path.Clean("/buckets/"+parts[0]+"/"+obj))
 	}
-	return bucket, path.Clean("/buckets/" + bucket + "/" + obj)
+	return
+}
+
+func inUploads(res, bucket string) bool {
+	return res == "/buckets/"+bucket+"/.uploads" || within(res, "/buckets/"+bucket+"/.uploads")
 }
 
 // legalCopySource: names an ordinary object inside the directory of the bucket it names.
 func legalCopySource(src string) bool {
-	b, res := copySourceResolved(src)
-	if b == "" || b == "." || b == ".." || strings.ContainsAny(b, "\\") {
-		return false
+	bs, rs := copySourceResolved(src)
+	for i, b := range bs {
+		if b == "" || b == "." || b == ".." || strings.ContainsAny(b, "\\%") {
+			return false
+		}
+		if !within(rs[i], "/buckets/"+b) || inUploads(rs[i], b) {
+			return false
+		}
 	}
-	return within(res, "/buckets/"+b) && !within(res, "/buckets/"+b+"/.uploads") && res != "/buckets/"+b+"/.uploads"
+	return true
 }
 
 const (
@@ -528,16 +557,27 @@ func findingClasses(o *op) []string {
 	keyRes := resolve(bucketDir, key)
 	usesKey := isObjectRoute(o.route) || o.route == "NewMultipartUpload" || o.route == "CompleteMultipartUpload"
 	if ok && usesKey {
-		if !within(keyRes, bucketDir) {
-			add(kKey)
-		} else if isObjectRoute(o.route) && (keyRes == uploadsDir || within(keyRes, uploadsDir)) {
-			add(kUploads)
+		keys := []string{key}
+		if o.route == "CopyObject" {
+			keys = decodings(key) // the destination URL is built without escaping
+		}
+		for _, k := range keys {
+			keyRes = resolve(bucketDir, k)
+			if !within(keyRes, bucketDir) {
+				add(kKey)
+			} else if isObjectRoute(o.route) && inUploads(keyRes, B) {
+				add(kUploads)
+			}
 		}
 	}
 	switch o.route {
 	case "CopyObject", "CopyObjectPart":
-		b, res := copySourceResolved(o.src)
-		if within(res, "/buckets/"+b+"/.uploads") && within(res, "/buckets/"+b) {
+		bs, rs := copySourceResolved(o.src)
+		up := false
+		for i, b := range bs {
+			up = up || (within(rs[i], "/buckets/"+b) && inUploads(rs[i], b))
+		}
+		if up {
 			add(kCopyUp)
 		} else if !legalCopySource(o.src) {
 			add(kCopySrc)
@@ -545,8 +585,10 @@ func findingClasses(o *op) []string {
 	}
 	switch o.route {
 	case "PutObjectPart", "CopyObjectPart", "CompleteMultipartUpload", "AbortMultipartUpload", "ListObjectParts":
-		if r := resolve(uploadsDir, o.upID); !within(r, uploadsDir) {
-			add(kUpID)
+		for _, id := range decodings(o.upID) {
+			if r := resolve(uploadsDir, id); !within(r, uploadsDir) {
+				add(kUpID)
+			}
 		}
 	case "DeleteMultipleObjects":
 		for _, k := range o.batch {
@@ -652,7 +694,7 @@ func judge(o *op, before, after s3kit.Snapshot, resp *s3kit.Resp, sendErr error)
 		for _, m := range outsideMarkers {
 			if strings.Contains(string(data), m) {
 				if legalSrc {
-					if b, res := copySourceResolved(o.src); res == markerOwner(m) && b != "" {
+					if _, rs := copySourceResolved(o.src); rs[0] == markerOwner(m) {
 						continue
 					}
 				}
@@ -701,16 +743,21 @@ func TestPropKeysStayInBucket(t *testing.T) {
 		n := rapid.IntRange(1, 3).Draw(t, "requests")
 		ops := make([]*op, 0, n)
 		for i := 0; i < n; i++ {
-			o := genOp(t)
-			skip := false
-			for _, k := range findingClasses(o) {
-				if vlib.Known(k) {
-					vlib.Excluded(k)
-					skip = true
+			// inputs of a listed finding class are left out by construction; draw again
+			// (a few times) so that the case still has something to say
+			for try := 0; try < 8; try++ {
+				o := genOp(t)
+				skip := false
+				for _, k := range findingClasses(o) {
+					if vlib.Known(k) {
+						vlib.Excluded(k)
+						skip = true
+					}
 				}
-			}
-			if !skip {
-				ops = append(ops, o)
+				if !skip {
+					ops = append(ops, o)
+					break
+				}
 			}
 		}
 		if len(ops) == 0 {
